@@ -620,6 +620,11 @@ impl<Id: EntityId> PropertyColumn<Id> {
     pub fn set(&mut self, id: Id, value: Value) {
         // Update zone map incrementally
         self.update_zone_map_on_insert(&value);
+        // A compressed copy of this entity's value would go stale: bring the
+        // compressed values back into the hot buffer first.
+        if self.compressed_position(id).is_some() {
+            self.decompress_all();
+        }
         self.values.insert(id, value);
 
         // Check if we should compress (in Auto mode)
@@ -682,15 +687,50 @@ impl<Id: EntityId> PropertyColumn<Id> {
             return Some(value.clone());
         }
 
-        // For now, compressed data lookup is not implemented for sparse access
-        // because the compressed format stores values by index, not by entity ID.
-        // This would require maintaining an ID -> index map in CompressedColumnData.
-        // The compressed data is primarily useful for bulk/scan operations.
-        None
+        // Then the compressed values. An entity is in at most one of the two
+        // places: set() and remove() decompress before touching a compressed entity.
+        self.get_compressed(id)
+    }
+
+    /// Returns the position of an entity in the compressed values, if it is stored there.
+    #[allow(unsafe_code)]
+    fn compressed_position(&self, id: Id) -> Option<usize> {
+        let index_to_id = match self.compressed.as_ref()? {
+            CompressedColumnData::Integers { index_to_id, .. }
+            | CompressedColumnData::Strings { index_to_id, .. }
+            | CompressedColumnData::Booleans { index_to_id, .. } => index_to_id,
+        };
+        let id_u64 = unsafe { std::mem::transmute_copy::<Id, u64>(&id) };
+        // Entities are stored sorted by ID
+        index_to_id.binary_search(&id_u64).ok()
+    }
+
+    /// Reads an entity's value from the compressed values.
+    fn get_compressed(&self, id: Id) -> Option<Value> {
+        let position = self.compressed_position(id)?;
+        match self.compressed.as_ref()? {
+            CompressedColumnData::Integers { data, .. } => {
+                let values = TypeSpecificCompressor::decompress_integers(data).ok()?;
+                values
+                    .get(position)
+                    .map(|&v| Value::Int64(crate::storage::zigzag_decode(v)))
+            }
+            CompressedColumnData::Strings { encoding, .. } => encoding
+                .get(position)
+                .map(|s| Value::String(ArcStr::from(s))),
+            CompressedColumnData::Booleans { data, .. } => {
+                let values = TypeSpecificCompressor::decompress_booleans(data).ok()?;
+                values.get(position).map(|&b| Value::Bool(b))
+            }
+        }
     }
 
     /// Removes a value for an entity.
     pub fn remove(&mut self, id: Id) -> Option<Value> {
+        // A compressed value can only be removed from the hot buffer
+        if self.compressed_position(id).is_some() {
+            self.decompress_all();
+        }
         let removed = self.values.remove(&id);
         if removed.is_some() {
             // Mark zone map as dirty - would need full rebuild for accurate min/max
@@ -1330,6 +1370,57 @@ mod tests {
         // Late values should be readable
         let last_value = col.get(NodeId::new(1999));
         assert!(last_value.is_some() || col.is_compressed());
+    }
+
+    #[test]
+    fn test_reads_and_writes_after_compression() {
+        let patterns: [fn(u64) -> Value; 3] = [
+            |i| Value::Int64(1000 + i as i64),
+            |i| Value::Bool(i % 2 == 0),
+            |i| Value::String(ArcStr::from(["Person", "Company"][(i % 2) as usize])),
+        ];
+        for make in patterns {
+            let mut col: PropertyColumn<NodeId> = PropertyColumn::new();
+            for i in 0..40 {
+                col.set(NodeId::new(i), make(i));
+            }
+            col.force_compress();
+            assert!(col.is_compressed());
+
+            // Every value is still readable
+            for i in 0..40 {
+                assert_eq!(col.get(NodeId::new(i)), Some(make(i)));
+            }
+            assert_eq!(col.get(NodeId::new(40)), None);
+            assert_eq!(col.len(), 40);
+
+            // Writes after compression win, also after decompression
+            col.set(NodeId::new(3), Value::Int64(7));
+            assert_eq!(col.remove(NodeId::new(5)), Some(make(5)));
+            assert_eq!(col.get(NodeId::new(3)), Some(Value::Int64(7)));
+            assert_eq!(col.get(NodeId::new(5)), None);
+            col.set_compression_mode(CompressionMode::None);
+            assert_eq!(col.get(NodeId::new(3)), Some(Value::Int64(7)));
+            assert_eq!(col.get(NodeId::new(5)), None);
+            assert_eq!(col.get(NodeId::new(4)), Some(make(4)));
+            assert_eq!(col.len(), 39);
+        }
+    }
+
+    #[test]
+    fn test_auto_compression_keeps_values_readable() {
+        let mut col: PropertyColumn<NodeId> =
+            PropertyColumn::with_compression(CompressionMode::Auto);
+        for i in 0..5000u64 {
+            col.set(NodeId::new(i), Value::Int64(20 + (i % 50) as i64));
+        }
+        assert!(col.is_compressed());
+        for i in [0u64, 1, 4095, 4096, 4999] {
+            assert_eq!(
+                col.get(NodeId::new(i)),
+                Some(Value::Int64(20 + (i % 50) as i64))
+            );
+        }
     }
 
     #[test]
